@@ -53,6 +53,16 @@ CHECKS = {
     note='partial: residual<1e-3 after subtracting an extracted catalogue needs the optimiser; sky2pix_ellipse is C16; float32 and FITS I/O outside; images up to 3x3 (thorough 4x3); FWHM2CC checked as a constant.',
     technique='symbolic execution of the real Python source on z3 terms with bounded index concretisation; sympy normalisation then z3 decides; models replayed with a real WCSHelper against an independent Gaussian renderer',
     design='4/C14'),
+ 'C07': dict(
+    text='Four solver kernels on code extracted from /repo on every run: (1) the stripe-height expression sliced from filter_mc_sharemem (>=1, >= grid step, for all integers); (2) a backward slice of the stripe layout and of the Barrier(parties=)/Pool(processes=) construction executed on symbolic-length lists: equal numbers of starts/ends, stripes abut, cover [0,rows), non-empty, parties = stripes, processes >= parties (a worker blocked in wait() keeps its pool slot) - linear integer arithmetic, unbounded; (3) z3 bounded model checking of the worker protocol whose skeleton (waits, resets, abort-on-failure, shared-map reads/writes) is extracted from the AST, with CPython Barrier and Pool semantics as a transition model: for n<=3 stripes (4 thorough), ALL interleavings, zero or one injected exception at any phase: no deadlock, no BrokenBarrierError without a fault, every read of the shared background ordered after all its writes, masking ordered after all reads, a fault always surfaces; (4) crash point as a solver variable over the try/finally owning the shared memory: every created segment is unlinked.',
+    note='Barrier/Pool model is hand-written after CPython 3.12 threading.Barrier / multiprocessing.Pool (validated by forcing solver schedules on the real workers through the env-guarded delay/fault hook, watchdog, /dev/shm listing); worker death by signal, >4 stripes and the numeric effect of the stripe count are outside; bit-precise rounding of the stripe height returns unknown in z3 and is not claimed (not needed: processes >= parties is structural).',
+    technique='z3 bounded model checking of a transition system extracted from the AST (finite-domain bit-vector encoding, schedule and fault as solver variables) + symbolic execution of AST slices on symbolic-length lists (LIA); traces replayed on the real multiprocessing code via injected delays/faults',
+    design='4/C07'),
+ 'C06': dict(
+    text='Partial (index/dataflow arithmetic and estimator algebra). A backward slice of sigma_filter (row/column node lists, the real nested box(), mgrid targets) runs on symbolic image size, stripe, grid and box: z3 (LIA, node lists of symbolic length, arbitrary node index) decides nodes strictly increasing and bracketing every target pixel (no extrapolation), output shape = stripe shape, every box slice non-empty and inside the data; the rows background-subtracted before pass 2 cover every row an rms box can read and are aligned with the shared map (why adding a constant leaves the noise unchanged); mask rows aligned for both maps. The real sigmaclip runs on symbolic samples (n<=3): constant -> (c,0), shift/scale equivariance, mean within range, 0<=std<=range.',
+    note='scipy interpolation is taken by contract (exact at nodes, convex, affine-equivariant); Gaussian-noise statistics, float32, >3 samples in sigmaclip (nlsat does not finish n=4) are outside; the image-level contract (img, img+c, k*img, constant, NaN block; 1-3 stripes) is executed on the real BANE only as the replay oracle.',
+    technique='symbolic execution of AST backward slices of the real function on symbolic-length lists (z3 LIA) and of the real sigmaclip on z3 reals (relational, nlsat); models replayed through real BANE runs',
+    design='4/C06'),
 }
 NA = {}
 ALL = ['C%02d' % i for i in range(1, 21)]
